@@ -87,6 +87,13 @@ def boolVal? (s : Str) : Option Bool :=
 
 /-! ### string family -/
 
+/-- XML 1.0 `Char`: the characters an `xsd:string` may contain -/
+def xmlChar (c : Char) : Bool :=
+  let n := c.toNat
+  n == 9 || n == 10 || n == 13 || (32 ≤ n && n ≤ 0xD7FF) || (0xE000 ≤ n && n ≤ 0xFFFD) || 0x10000 ≤ n
+
+def stringLex (s : Str) : Bool := s.all xmlChar
+
 def noTabNlCr (s : Str) : Bool := s.all (fun c => c != '\t' && c != '\n' && c != '\r')
 
 def noDoubleSpace : Str → Bool
@@ -232,15 +239,109 @@ def hexVal : Str → List Nat
   | a :: b :: r => (16 * hexNib a + hexNib b) :: hexVal r
   | _ => []
 
+/-! ### values of the date/time and duration families at field level
+
+  Only meaningful on forms in the lexical space.  Fractions of a second are compared as digit
+  strings without trailing zeros; 24:00:00 is kept as written (stricter than XSD, which
+  identifies it with 00:00:00 of the next day). -/
+
+def rstripZeros : Str → Str
+  | [] => []
+  | c :: cs =>
+    match rstripZeros cs with
+    | [] => if c == '0' then [] else [c]
+    | r => c :: r
+
+/-- time-zone offset in minutes -/
+def tzVal : Str → Option Int
+  | ['Z'] => some 0
+  | [sg, a, b, ':', c, d] =>
+    let m : Int := (natVal [a, b] * 60 + natVal [c, d] : Nat)
+    some (if sg == '-' then -m else m)
+  | _ => none
+
+structure DateV where
+  year : Int
+  month : Nat
+  day : Nat
+  tz : Option Int
+  deriving DecidableEq, Repr
+
+structure TimeV where
+  hour : Nat
+  minute : Nat
+  second : Nat
+  frac : Str          -- fraction digits, trailing zeros removed
+  tz : Option Int
+  deriving DecidableEq, Repr
+
+def dateVal (s : Str) : DateV × Str :=
+  let neg := s.head? == some '-'
+  let s' := if neg then s.drop 1 else s
+  let y := takeDigits s'
+  match dropDigits s' with
+  | '-' :: m1 :: m2 :: '-' :: d1 :: d2 :: r =>
+    (⟨if neg then -(natVal y : Int) else (natVal y : Int), natVal [m1, m2], natVal [d1, d2], tzVal r⟩, r)
+  | r => (⟨0, 0, 0, none⟩, r)
+
+def timeVal (s : Str) : TimeV :=
+  match s with
+  | h1 :: h2 :: ':' :: m1 :: m2 :: ':' :: s1 :: s2 :: r =>
+    match r with
+    | '.' :: r' => ⟨natVal [h1, h2], natVal [m1, m2], natVal [s1, s2], rstripZeros (takeDigits r'), tzVal (dropDigits r')⟩
+    | _ => ⟨natVal [h1, h2], natVal [m1, m2], natVal [s1, s2], [], tzVal r⟩
+  | _ => ⟨0, 0, 0, [], none⟩
+
+/-- dateTime: the date fields (without zone) and the time fields (with zone) -/
+def dateTimeVal (s : Str) : DateV × TimeV :=
+  let (d, r) := dateVal s
+  ({ d with tz := none }, match r with | 'T' :: t => timeVal t | _ => timeVal [])
+
+/-- value of an optional integer field -/
+def fieldVal (des : Char) (s : Str) : Nat × Str :=
+  match intField des s with
+  | some r => (natVal (takeDigits s), r)
+  | none => (0, s)
+
+/-- duration value: months, and seconds as numerator / 10^scale (both carry the sign) -/
+def durVal (s0 : Str) : Int × Int × Nat :=
+  let neg := s0.head? == some '-'
+  let s := (if neg then s0.drop 1 else s0).drop 1      -- after `P`
+  let (y, s1) := fieldVal 'Y' s
+  let (mo, s2) := fieldVal 'M' s1
+  let (d, s3) := fieldVal 'D' s2
+  let t := match s3 with | 'T' :: t => t | _ => []
+  let (h, t1) := fieldVal 'H' t
+  let (mi, t2) := fieldVal 'M' t1
+  let ip := takeDigits t2
+  let fp := match dropDigits t2 with | '.' :: r => takeDigits r | _ => []
+  let secs : Nat := (((d * 24 + h) * 60 + mi) * 60) * 10 ^ fp.length + natVal (ip ++ fp)
+  let months : Nat := y * 12 + mo
+  (if neg then -(months : Int) else months, if neg then -(secs : Int) else secs, fp.length)
+
+/-- equality in the value space of datatype `d` of two forms of its lexical space -/
+def sameValue (d : Dt) (s t : Str) : Prop :=
+  match d with
+  | .decimal => ratEq (decVal s) (decVal t)
+  | .boolean => boolVal? s = boolVal? t
+  | .string | .anyURI | .normalizedString | .token | .language => s = t
+  | .date => (dateVal s).1 = (dateVal t).1
+  | .time => timeVal s = timeVal t
+  | .dateTime => dateTimeVal s = dateTimeVal t
+  | .duration | .dayTimeDuration | .yearMonthDuration =>
+    (durVal s).1 = (durVal t).1 ∧ ratEq ((durVal s).2.1, (durVal s).2.2) ((durVal t).2.1, (durVal t).2.2)
+  | .hexBinary => hexVal s = hexVal t
+  | _ => intVal s = intVal t
+
 /-! ### the lexical space of each modelled datatype -/
 
 def validLex (d : Dt) (s : Str) : Bool :=
   match d with
   | .decimal => decLex s
   | .boolean => (boolVal? s).isSome
-  | .string | .anyURI => true
-  | .normalizedString => noTabNlCr s
-  | .token => tokenLex s
+  | .string | .anyURI => stringLex s
+  | .normalizedString => stringLex s && noTabNlCr s
+  | .token => stringLex s && tokenLex s
   | .language => langLex s
   | .date => dateLex s
   | .time => timeLex s
